@@ -307,6 +307,48 @@ def _symmetric_by_flow(repo: Repo, chk: Check, f: Func, fl: Flow) -> bool:
     return True
 
 
+def every_value(chk: Check, f: Func, fl: Flow) -> None:
+    """the users that are examined are those of EVERY operand and result of the walked op, whatever its kind: a value an op only reads still
+    orders it against a later writer on another core (write after read), against the loop back edge and against the buffer's dealloc"""
+    from sa.flow import expand as _expand
+
+    chk.rule("C13.every-value", "for every walked op the users of all its operands and all its results are examined (no op kind contributes only some of its values)", floor=1)
+    uses = [s for s in fl.stmts(ast.For) if s.reachable and norm.match(T("$v.uses"), s.node.iter) is not None and isinstance(norm.match(T("$v.uses"), s.node.iter)["v"], ast.Name)]
+    if not uses:
+        raise AnalysisError(f"{f.where}: loop over the uses of a value not found")
+    n_ = 0
+    for s in uses:
+        v = norm.match(T("$v.uses"), s.node.iter)["v"].id
+        outer = [l for l in s.loops if isinstance(l, ast.For) and isinstance(l.target, ast.Name) and l.target.id == v]
+        if not outer:
+            continue
+        osite = next((x for x in fl.stmts(ast.For) if x.node is outer[-1]), None)
+        if osite is None:
+            raise AnalysisError(f"{f.where}: loop over the values of an op not reached")
+        walked = [l.target.id for l in osite.loops if isinstance(l, ast.For) and isinstance(l.target, ast.Name) and norm.match(T("$m.walk()"), l.iter) is not None]
+        if not walked:
+            continue
+        o = walked[-1]
+        n_ += 1
+        partial = []
+        for alt in osite.state.alts:
+            it = _expand(outer[-1].iter, {k: v_ for k, v_ in alt.env.items() if k not in osite.shadow})
+            has_o = norm.contains(it, T(f"{o}.operands"))
+            has_r = norm.contains(it, T(f"{o}.results")) or norm.contains(it, T(f"{o}.result"))
+            if not (has_o and has_r):
+                calls = [c for c in ast.walk(it) if isinstance(c, ast.Call) and isinstance(c.func, ast.Name) and c.func.id not in ("list", "tuple", "chain", "iter")]
+                if calls and not (has_o or has_r) and not any(isinstance(n, ast.Attribute) for n in ast.walk(it)):
+                    raise AnalysisError(f"{osite.where()}: the values of `{o}` whose users are examined come from `{ast.unparse(it)[:80]}`, which is not looked through")
+                conds = [t for t in alt.facts if o in t and "isinstance" in t][-1:]
+                partial.append(f"`{ast.unparse(it)[:80]}`" + (f" when {conds[0]}" if conds else ""))
+        chk.result(not partial, "C13.every-value", f"{f.key}:values#{n_}", osite.where(),
+                   "the users of every operand and every result of the walked op are examined",
+                   f"only some values of the walked op are followed: {sorted(set(partial))[:2]}: a value the op only reads no longer orders it against a later writer on another core, "
+                   "the loop back edge or the dealloc of the buffer")
+    if n_ == 0:
+        raise AnalysisError(f"{f.where}: no loop over the values of the walked op found")
+
+
 def _symmetric_tail(repo: Repo, chk: Check, f: Func, fl: Flow) -> None:
     # resets and insertion point
     ins = [s for s in fl.calls("insert_op") if s.reachable]
@@ -318,6 +360,7 @@ def _symmetric_tail(repo: Repo, chk: Check, f: Func, fl: Flow) -> None:
     under_insert = [s for s in resets if has_fact(s, ["$o in $l"])]
     chk.result(bool(under_sync) and bool(under_insert), "C13.symmetric", f"{f.key}:resets", f.where,
                "both an existing and an inserted barrier reset the pending list")
+    every_value(chk, f, fl)
     walk = [s for s in fl.stmts(ast.For) if s.reachable and norm.match(T("$m.walk()"), s.node.iter) is not None]
     chk.result(bool(walk), "C13.symmetric", f"{f.key}:walk-order", f.where, "the module is walked in program order (no reverse / region_first)")
     # known limitation: only the direct parent loop is considered
